@@ -892,6 +892,15 @@ func (e *Enc) evalCall(n *SCall, ctx *SpecCtx) (SV, error) {
 		}
 		c2 := ctx.withState(ctx.old)
 		return e.evalSpec(n.Args[0], c2)
+	case "prev":
+		// prev(x): the local variable x (and everything else in the expression) as it was at the
+		// start of the current iteration - unlike iter(e), which reads locals in the current state
+		if ctx.iter == nil {
+			return SV{}, fmt.Errorf("prev() outside a loop step clause")
+		}
+		c2 := ctx.withState(ctx.iter)
+		c2.localSt = ctx.iter
+		return e.evalSpec(n.Args[0], c2)
 	case "entry":
 		// entry(e): e's heap and ghost reads in the entry state of the function under verification,
 		// also from a loop invariant of a callee that was expanded in place (where old() is the
